@@ -11,6 +11,7 @@ CONSTANTS
     InfluxStopF = FALSE
     ReaderDone = TRUE
     AlertCloseOnErr = TRUE
+    UdfStopAborts = FALSE
     HookNeedsTmLock = FALSE
 INVARIANTS
     TrNoLoss
